@@ -189,6 +189,14 @@ class RecEvaluator:
             sl.learn(inter["context"], a, r, p, **kw)
             yield {"i": i, "seed": seed, "reward": r, "p": p, "state": getattr(learner, "h", None), "val": self.tag}
 
+class RecSummaryEvaluator(RecEvaluator):
+    """... and closes every evaluation with a summary row, also that of an environment without interactions"""
+    def evaluate(self, environment, learner):
+        n = 0
+        for row in super().evaluate(environment, learner):
+            n += 1; yield row
+        yield {"i": -1, "seed": None, "reward": None, "p": None, "state": n, "val": self.tag + "-summary"}
+
 def rec_function_evaluator(environment, learner):
     """a bare-function evaluator (module-level so it pickles)"""
     n = 0
